@@ -107,6 +107,13 @@ class SugarGen:
                 nodes_only = [x for x in local_ids if x[0] in "sw"]
                 self.rows.append({"row_id": "", "type": "go_to", "from": frm() or rng.choice(local_ids), "message_text": rng.choice(nodes_only)})
                 self.budget -= 1
+            elif r < 0.74 and [x for x in local_ids if x[0] in "LB"]:
+                # an exit row attached to a whole block / loop (by id, or blank `from` right after it)
+                blocks = [x for x in local_ids if x[0] in "LB"]
+                last_is_block = self.rows and self.rows[-1]["type"] in ("end_for", "end_block")
+                f = "" if (last_is_block and rng.random() < 0.5) else rng.choice(blocks)
+                self.rows.append({"row_id": "", "type": rng.choice(["hard_exit", "hard_exit", "loose_exit"]), "from": f})
+                self.budget -= 1
             elif r < 0.86:
                 self.loop(depth, scope, local_ids, frm())
             else:
